@@ -54,7 +54,11 @@ def to_dict_(
             else:
                 element = cast(_TValue, x)
 
-            m[key] = element
+            try:
+                m[key] = element
+            except Exception as ex:  # pylint: disable=broad-except
+                observer.on_error(ex)
+                return
 
         def on_completed() -> None:
             nonlocal m
